@@ -9,9 +9,8 @@
 # VERIF_K5_PAGE, VERIF_K5_MAXITEMS, VERIF_K5_FLUSH (with VERIF_K5_LOGS: one batched scenario),
 # K5_MUTATION=a..h (detection self-test).
 # Real-storage family (real_test.go): VERIF_K5_REAL_DEPTH (longest history; 5 quick, 6 thorough),
-# VERIF_K5_NOREAL=1 (skip it), VERIF_K5_REAL_ONLY=1 (only it), VERIF_K5_SPLIT=1|0 (force / forbid
-# the deployment with the manager in its own process; default: run iff known_findings.json
-# lists C33:foreign-log@split).
+# VERIF_K5_NOREAL=1 (skip it), VERIF_K5_REAL_ONLY=1 (only it), VERIF_K5_SPLIT=0 (leave out the
+# deployment with the manager in its own process; it runs by default).
 set -u
 MODE="${1:-quick}"
 HERE="$(cd "$(dirname "$0")" && pwd)"
